@@ -69,6 +69,7 @@ _EX = {}
 
 def to_case(v):
     toks, lseed, cseed = v
+    cseed = family.cfg_seed(cseed)
     src, r = layout.render(toks, random.Random(lseed), 'C', dict(bs_cmt=0.15))
     rng = random.Random(cseed)
     k = cseed % 5
@@ -112,6 +113,7 @@ def make_strategy_cpp():
 
 def to_case_cpp(v):
     toks, lseed, cseed = v
+    cseed = family.cfg_seed(cseed)
     rng = random.Random(lseed)
     src, r = layout.render(toks, rng, 'CPP', dict(bs_cmt=0.1))
     crng = random.Random(cseed)
@@ -133,9 +135,10 @@ def iarf_ws_options():
 
 def main(ctx):
     quick = ctx.tier == 'quick'
-    rng = random.Random(core.subseed(ctx.seed, 'c02'))
+    rng = random.Random(core.subseed(ctx.useed, 'c02'))
     ex = family.exclusions(ctx)
     _EX.update(ex)
+    family.set_tier(ctx)
     ctx.rule = ('case = (source bytes, language, whitespace-class config); judged when uncrustify exits 0; non-trivial = output '
                 'bytes differ from the input and the input has >= 20 code tokens; distinct by sha256(source, language, config)')
     ctx.assumptions = ['the independent lexer vf/clex.py implements translation phases 1-3 of C/C++/ObjC and the Java lexical grammar',
@@ -146,7 +149,7 @@ def main(ctx):
     cases = []
     # (a) corpus x configs
     ncfg = 2 if quick else 24
-    cfgs = [{}] + family.random_cfgs(core.subseed(ctx.seed, 'a'), ncfg, CLASSES, (0.01, 0.03, 0.08), ex, ctx.counts)
+    cfgs = [{}] + family.random_cfgs(core.subseed(ctx.useed, 'a'), ncfg, CLASSES, (0.01, 0.03, 0.08), ex, ctx.counts)
     cfgs += extreme_cfgs(ex, ctx.counts, quick)
     for rel, lang in files:
         src = corpus.read(rel)
@@ -171,9 +174,9 @@ def main(ctx):
     # (b) mutated corpus files
     nmut = 2500 if quick else 60000
     small = [f for f in files if os.path.getsize(os.path.join(corpus.input_root(), f[0])) < 12000]
-    mcfgs = [{}] + family.random_cfgs(core.subseed(ctx.seed, 'm'), 6 if quick else 30, CLASSES, (0.02, 0.06), ex, ctx.counts)
+    mcfgs = [{}] + family.random_cfgs(core.subseed(ctx.useed, 'm'), 6 if quick else 30, CLASSES, (0.02, 0.06), ex, ctx.counts)
     for i in range(nmut):
-        r = random.Random(core.subseed(ctx.seed, 'mut', i))
+        r = random.Random(core.subseed(ctx.useed, 'mut', i))
         rel, lang = r.choice(small)
         src, names = mutate.mutate(corpus.read(rel), r, r.randint(1, 2),
                                    kinds=['del_line', 'dup_line', 'swap_lines', 'ins_bracket', 'del_bracket'])
